@@ -59,6 +59,8 @@ var Checks = map[string]func(env *Env, rep *Report){
 	"C09": RunC09,
 	"C08": RunC08,
 	"C16": RunC16,
+	"C17": RunC17,
+	"C18": RunC18,
 	"C19": RunC19,
 	"C20": RunC20,
 	"C06": RunC06,
